@@ -6,6 +6,7 @@ CONSTANTS
   Vals = {}
   MaxOps = 0
   WrapUpperBound = FALSE
+  FilterForeign = TRUE
 INVARIANT ObsInv
 POSTCONDITION TraceAccepted
 CHECK_DEADLOCK FALSE
